@@ -243,7 +243,8 @@ inductive Op where
   | setKids (o : Nat) (n : Nat)                -- o.kids = [N() …]
   | splice (o : Nat) (i j n : Nat)             -- o.kids[i:j] = [N() …]  (append/insert/del/clear are instances)
   | setDict (o : Nat) (keys : List Nat)        -- o.byname = {k: N() …}
-  | dictSet (o : Nat) (key : Nat)             -- o.byname[k] = N()
+  | dictSet (o : Nat) (key : Nat)             -- o.byname[k] = N()  (also setdefault on a missing key)
+  | dictUpdate (o : Nat) (keys : List Nat)    -- o.byname.update({k: N() …}) / o.byname |= {…}
   | dictDel (o : Nat) (key : Nat)              -- del o.byname[k]
   | dictClear (o : Nat)                        -- o.byname.clear()
   | probe (o : Nat) (f : Final)                -- o.value += 1
@@ -266,6 +267,21 @@ def regAll (xs : List Nat) : List Act := xs.map .reg
 def dedupKeys : List Nat → List Nat
   | [] => []
   | k :: ks => k :: (dedupKeys ks).filter (· ≠ k)
+
+/-- `TraitDict.update` (trait_dict_object.py:244-273; `__ior__` goes through it) on
+the association list: existing keys are overwritten in place and reported in
+`changed` (with the OLD value), new keys are appended and reported in `added`.
+Returns (new items, added values, changed (old, new) pairs), in argument order. -/
+def dictUpd : List (Nat × Nat) → List (Nat × Nat) → List (Nat × Nat) × List Nat × List (Nat × Nat)
+  | d, [] => (d, [], [])
+  | d, (k, v) :: kvs =>
+    match d.find? (·.1 = k) with
+    | some e =>
+      let r := dictUpd (d.map (fun e => if e.1 = k then (k, v) else e)) kvs
+      (r.1, r.2.1, (e.2, v) :: r.2.2)
+    | none =>
+      let r := dictUpd (d ++ [(k, v)]) kvs
+      (r.1, v :: r.2.1, r.2.2)
 
 /-- The heap change, the trait that fires and what its `handle_*` methods do.
 `none` = the operation is not applicable (skipped on both sides). -/
@@ -319,6 +335,18 @@ def mutate (h : Heap) : Op → Option Mut
         let h' := (h.setObj o { h.obj o with byname := (h.obj o).byname ++ [(key, new)] }).bump 1
         -- handle_dict_items: handle_dict(removed = {}, added = {key: new})
         some ⟨h', o, .items .byname, [.reg new], true⟩
+    else none
+  | .dictUpdate o keys =>
+    if o < h.next then
+      let keys := dedupKeys keys
+      let news := freshIds h keys.length
+      let r := dictUpd (h.obj o).byname (keys.zip news)
+      let h' := (h.setObj o { h.obj o with byname := r.1 }).bump keys.length
+      -- ONE event (removed = {}, added, changed).  handle_dict_items:
+      --   handle_dict({}, added): register every added value; then for changed:
+      --   unregister(old value); register(dict[key])
+      some ⟨h', o, .items .byname,
+            regAll r.2.1 ++ r.2.2.flatMap (fun c => [.unreg c.1, .reg c.2]), !keys.isEmpty⟩
     else none
   | .dictDel o key =>
     if o < h.next then
